@@ -218,6 +218,9 @@ func geomGraph(r *rand.Rand) (string, [][]string) {
 	case 3:
 		g := gen.Coincidence(r)
 		return g.Family, gen.Names(g)
+	case 4, 5:
+		g := gen.Slack(r)
+		return g.Family, gen.Names(g)
 	default:
 		return smallGraph(r)
 	}
